@@ -358,9 +358,42 @@ def proxy_lexical_reads(ctx):
             ctx.count("proxy-lexical-read")
 
 
+def proxy_hex_colour_reads(ctx):
+    """xsd:hexBinary admits lower-case digits: a colour another producer wrote as val="ff8800" is the colour FF8800 through
+    every colour proxy (fill, line, font), and HSL/system colours of other lexical forms do not disturb the reading"""
+    from pptx.dml.color import RGBColor
+    from harness.props.c09 import build_deck
+
+    prs = build_deck()
+    sp = prs.slides[1].shapes[0]
+    sp.fill.solid(); sp.fill.fore_color.rgb = RGBColor(1, 2, 3)
+    sp.line.color.rgb = RGBColor(1, 2, 3)
+    run = sp.text_frame.paragraphs[0].runs[0]
+    run.font.color.rgb = RGBColor(1, 2, 3)
+    sites = [
+        ("fill.fore_color.rgb", lambda: sp._element.spPr.xpath("./a:solidFill/a:srgbClr")[0], lambda: sp.fill.fore_color.rgb),
+        ("line.color.rgb", lambda: sp._element.spPr.xpath("./a:ln/a:solidFill/a:srgbClr")[0], lambda: sp.line.color.rgb),
+        ("font.color.rgb", lambda: run._r.xpath("./a:rPr/a:solidFill/a:srgbClr")[0], lambda: run.font.color.rgb),
+    ]
+    for name, el, read in sites:
+        for lex in ("ff8800", "Ff88aB", "abcdef", "00000a", "FFFFFF", "09afAF"):
+            ctx.case(key=("proxy-hex-read", name, lex))
+            try:
+                el().set("val", lex)
+                got = read()
+            except Exception as e:  # noqa
+                ctx.fail(f"unreadable:{name}:hex-lower-case", f"{name}: the schema-valid colour val={lex!r} cannot be read: {type(e).__name__}: {str(e)[:100]}", {"property": name, "lexical": lex})
+                continue
+            if tuple(got) != tuple(bytes.fromhex(lex)):
+                ctx.fail(f"misread:{name}:hex", f"{name}: val={lex!r} reads {got!r}", {"property": name, "lexical": lex})
+            else:
+                ctx.count("proxy-hex-read")
+
+
 def correspond(ctx):
     proxy_enum_sweep(ctx)
     proxy_lexical_reads(ctx)
+    proxy_hex_colour_reads(ctx)
     prs, S = pairs()
     probe = xsdprobe.Probe(common.REPO, [xt for (_, xt) in prs])
     lines, impl, meta = [], [], []
